@@ -34,8 +34,9 @@ SENTINEL = -9999.0
 # development aid: VH_C14_STRICT=1 judges under the other reading of the statement (weighted error estimates of a
 # one-member bin constrained to sqrt(1/w) and 0); the registered commands never set it
 STRICT = os.environ.get("VH_C14_STRICT") == "1"
-# development aid: VH_C14_ERR2X=1 also judges werr2 (sum(w^2 ..)-type estimate) at weight scales where w^2 leaves binary64
-ERR2X = os.environ.get("VH_C14_ERR2X") == "1"
+# werr2 (sum(w^2 ..)-type estimate) is judged also at weight scales where w^2 leaves binary64 (the estimate is scale invariant;
+# the defect the first such run found is repaired in /repo, see known_findings.json); VH_C14_ERR2X=0 switches that judgement off
+ERR2X = os.environ.get("VH_C14_ERR2X", "1") == "1"
 TRACE_CONSTS = {"StrictOneMember": STRICT, "JudgeErr2Extreme": ERR2X}
 
 # lattice concretisations: value = (x + off) * unit, second variable (y + yoff) * yunit, weight = w * wunit
@@ -855,8 +856,8 @@ def run(ctx):
         "NaN in the data: judged only when BOTH limits are given (then the bins are defined on the data within [min, max] and a NaN is "
         "in no bin); without both limits the range itself is undefined and no such case is generated",
         "weight scale 2^wexp: whist / 2^wexp and werr^2 * 2^wexp are recorded (exact transport by the law); at |wexp| >= 450, where "
-        "w^2 itself leaves the binary64 range, the sum(w^2 ..)-type estimate werr2 is NOT judged (JudgeErr2Extreme=FALSE): the unchanged "
-        "code returns 0 / inf there (reported as a lead with patch; VH_C14_ERR2X=1 judges it)",
+        "w^2 itself leaves the binary64 range, the sum(w^2 ..)-type estimate werr2 is judged as well (JudgeErr2Extreme=TRUE): the code as "
+        "found returned 0 / inf there (repaired: fix: wmom error estimate under/overflowed ...)",
         "representations: a variable whose representation cannot hold its lattice values exactly (float32 / integers / uint8 with a "
         "fractional unit, negative or 2^40 offset) is put on the plain integer lattice instead; the value handed over is always exact",
     ]
